@@ -65,7 +65,7 @@ Construct(route, X) ==
   /\ ~built /\ built' = TRUE
   /\ shape' = X.shape /\ pc' = X.cell /\ dc' = X.cell
   /\ UNCHANGED <<cls, nops>>
-  /\ last' = [a |-> "construct", route |-> route]
+  /\ last' = [a |-> "construct", route |-> route, shape |-> X.shape, cell |-> X.cell]
 
 Step == built /\ nops < MaxOps /\ nops' = nops + 1 /\ UNCHANGED <<cls, built>>
 
@@ -145,7 +145,7 @@ Queries(c) ==
                           "edges_circle_parameters", "edges_ideal_endpoints"}
     [] c = "Segment" -> {"projective_coords", "kleinian_coords", "endpoint_coords_all_models", "ideal_endpoint_coords",
                          "circle_parameters", "sphere_parameters", "geodesic", "get_end_pair", "endpoint_distance"}
-    [] c = "Tangent" -> {"projective_coords", "kleinian_coords", "origin_to", "isometry_to", "normalized", "angle",
+    [] c = "Tangent" -> {"projective_coords", "origin_to", "isometry_to", "normalized", "angle",
                          "point_along", "base_point_coords_all_models"}
     [] c = "HPoint" -> {"projective_coords", "coords_all_models", "distance", "origin_to", "unit_tangent_towards"}
 Query(q) ==
